@@ -192,6 +192,10 @@ def owners_of(events):
         path = [str(x) for x in e["names"]] + [str(nm)]
         for t in set(_leaves(row)):
             seen.setdefault(t, []).append(path)
+        # (a trigger cell is resolved from the survey root - only to check that the question exists - and, for the action, from the
+        #  triggering question: substitutions of that text say nothing about the row that carries it)
+        for t in _leaves(row.get("trigger") or ""):
+            seen.setdefault(t, []).extend([path, path])
     return {t: ps[0] for t, ps in seen.items() if len(ps) == 1 and "${" in t}
 
 
@@ -201,6 +205,8 @@ def ref_event(e, rootname, owners=None):
     ev = {"ev": "ref", "name": e["name"], "ls": bool(e["last_saved"]), "ctx": ctx[1:] if ctxok else [], "ctxok": ctxok,
           "err": "error" in e, "parse_ok": False, "e": {"abs": True, "up": 0, "path": [], "cur": False, "inst": ""},
           "in_ir": False, "in_pred": False, "owner": (owners or {}).get(e.get("src") or "", [])}
+    if ctxok and ctx[1:2] == ["meta"]:
+        ev["owner"] = []      # (a settings cell, e.g. instance_name, may carry the same text as a survey cell: no claim about the owner)
     if "out" in e:
         pe = abstract.parse_ref_output(e["out"], rootname)
         if pe is not None:
